@@ -230,7 +230,7 @@ CliSplit(o, a) ==
 \* commands that print numbers (tables of counts, majority characters, ...): nothing is read back, the printed values
 \* are the return record of the query
 CliQueryOps == {"CharStats", "CharStatsSeq", "CountProfile", "ProfileOnly", "MaxCharStats", "AvgAllelesPerSite",
-                "NumMutRef", "ListMutRef", "NumGapsUnique", "NumMutationsUnique", "CountDifferences"}
+                "NumMutRef", "ListMutRef", "NumGapsUnique", "NumMutationsUnique", "CountDifferences", "NbVariableSites"}
 CliOf(op, o, R) ==
   IF R.err THEN Fail(o)
   ELSE IF op \in CliQueryOps THEN Res(FALSE, o, <<>>, R.ret, R.j)
